@@ -172,18 +172,21 @@ func vC39_pnMergeIf(cond bool, cur, d *PNCounter) *PNCounter {
 func vC39_pnUpdate(cur *PNCounter, node string) (*PNCounter, *PNCounter, bool) {
 	n1, n2 := vNondetUint64("amount"), vNondetUint64("amount")
 	vAssume(n1 < 1<<60 && n2 < 1<<60)
-	var c [5]*PNCounter
+	// nothing, one operation, or two operations in every order (inc-dec, inc-inc, dec-inc, dec-dec)
+	var c [7]*PNCounter
 	c[0] = cur
 	c[1] = cur.Increment(node, n1)
 	c[2] = cur.Decrement(node, n1)
 	c[3] = c[1].Decrement(node, n2)
 	c[4] = c[1].Increment(node, n2)
-	op := vChoose("ops", 5)
+	c[5] = c[2].Increment(node, n2)
+	c[6] = c[2].Decrement(node, n2)
+	op := vChoose("ops", 7)
 	var ci, cd [7]*GCounter
-	for j := 0; j < 5; j++ {
+	for j := 0; j < 7; j++ {
 		ci[j], cd[j] = c[j].increments, c[j].decrements
 	}
-	u := &PNCounter{increments: vC38_gcPick(op, 5, ci), decrements: vC38_gcPick(op, 5, cd)}
+	u := &PNCounter{increments: vC38_gcPick(op, 7, ci), decrements: vC38_gcPick(op, 7, cd)}
 	dd, published := u.Delta().(*PNCounter)
 	if !published {
 		dd = vC39_emptyPN
